@@ -317,6 +317,10 @@ theorem C10_driver_refines (a : ℕ) (ha : a < 2 ^ 260) (B S K : Ed.Pt) (hB : Va
     refines_enc_oneTimeKey_derive refOps_refines_edOps a ha B S hB hS n, ?_, ?_⟩
   · rw [refines_rvnScalar refOps_refines_edOps _ hD, eD]
   · rw [refines_keyGenCheck refOps_refines_edOps _ S K hD hS hK n, eD]
+/-- hypotheses of `C10_driver_refines(_subcheck)` are satisfiable: the base point is a valid representative, every reduced scalar is
+below 2^260 -/
+example : Valid Ed.G ∧ Ed.l < 2 ^ 260 := ⟨G_valid, l_lt_260⟩
+
 /-- … and `SubKeyChecker::new(..).check(n, key, R)` (`c10_subcheck`: model side only, used by the C09–C11 families): the index the
 driver prints is the index `Checker.check` returns on the lawful instance -/
 theorem C10_driver_refines_subcheck (v : ℕ) (hv : v < 2 ^ 260) (S K R : Ed.Pt) (hS : Valid S) (hK : Valid K) (hR : Valid R)
